@@ -36,7 +36,8 @@ def clist(xs):
 def compact(n):
     """XML element -> (tag, text, [children]) without location/level"""
     kids = [compact(c) for c in n if c.tag not in ("location", "level")]
-    return (n.tag, (n.text or "").strip(), kids)
+    # string literals keep their exact text (leading/trailing blanks are significant)
+    return (n.tag, (n.text or "") if n.tag == "StringValue" else (n.text or "").strip(), kids)
 
 
 def child(n, tag):
@@ -376,21 +377,28 @@ def run_sany(tla_path, workdir):
     return xml_path
 
 
+def module_name(path):
+    m = re.search(r"-{4,}\s*MODULE\s+(\w+)\s*-{4,}", open(path, errors="replace").read())
+    if not m:
+        raise TErr("no MODULE header in " + path)
+    return m.group(1)
+
+
 def prepare_spec(tla, pcal_from, workdir):
-    """copy the spec (and, for gotests pairs, produce the TLA+ translation with the stock pcal translator)"""
-    base = os.path.basename(tla)
+    """copy the spec under the name of the module it contains (and, for gotests pairs, produce the TLA+ translation
+    with the stock pcal translator)"""
+    src = pcal_from if pcal_from else tla
+    base = module_name(src) + ".tla"
     dst = os.path.join(workdir, base)
+    shutil.copy(src, dst)
     if pcal_from:
-        shutil.copy(pcal_from, dst)
         p = subprocess.run(["java", "-XX:+UseParallelGC", "-cp", JAR, "pcal.trans", "-nocfg", base], cwd=workdir,
                            stdout=subprocess.PIPE, stderr=subprocess.STDOUT, text=True, timeout=300)
         if p.returncode != 0 or "Translation completed" not in p.stdout and "New file" not in p.stdout:
             raise TErr("pcal translator failed on %s: %s" % (pcal_from, p.stdout[-2000:]))
-    else:
-        shutil.copy(tla, dst)
     # sibling modules the spec may EXTEND
     for f in os.listdir(os.path.dirname(tla)):
-        if f.endswith(".tla") and f != base and not os.path.exists(os.path.join(workdir, f)):
+        if f.endswith(".tla") and f != os.path.basename(tla) and not os.path.exists(os.path.join(workdir, f)):
             shutil.copy(os.path.join(os.path.dirname(tla), f), os.path.join(workdir, f))
     return dst
 
